@@ -9,10 +9,20 @@ the stages into statements about `Locate.locateModel`, the function the driver e
 (`C09LOC`), using the glue lemmas of `Proofs/LocateGlue.lean` between the three image
 representations of the stage models.
 
-* `locateTail_shift`    grey_dilation → refine_com on two embeddings of one work image (any dimension);
-* `locateNoPre_shift`   `locateModel` with `preprocess = False` (any dimension);
-* `embed_isEmbed`       (Proofs/LocateGlue) `Locate.embed` produces an `IsEmbed` image;
-* `maxima_shift_order`  the `np.where` ORDER of the maxima is preserved under a shift.
+* `locateModel_shift`      the shift clause for the whole pipeline, 2-D, `preprocess` on or off;
+* `locatePre_shift`        … `preprocess = True` (2-D): bandpass → convert_to_int → grey_dilation →
+                           refine_com; `work_isEmbed`, `gmax_out_eq`, `bandpass_blank_far_axes`;
+* `locateNoPre_shift`      … `preprocess = False`, any dimension;
+* `locateTail_shift`       grey_dilation → refine_com on two embeddings of one work image (any dimension);
+* `maxima_shift_order`, `greyDilation_shift_order`   the `np.where` ORDER of the maxima is preserved
+                           under a shift (lists equal, not only sets);
+* `locateNoPre_transpose`, `locateNoPre_transpose_answers`   the transposition clause for
+                           `preprocess = False` (2-D), every reported quantity except `ecc`, up to row order;
+* (Proofs/LocateGlue) `embed_isEmbed`: `Locate.embed` produces an `IsEmbed` image.
+
+Hypotheses of the shift theorems, all decidable: the relation `IsEmbed` for both canvases, array
+sizes, percentile ≥ 0, and black padding — `halo` (reach of the filter; 0 without preprocessing)
+around the content, then `margin` and `radius + max_iterations − 1` around the halo-extended content.
 -/
 namespace TrackpyV.C09
 open TrackpyV Find Locate Refine
@@ -470,6 +480,17 @@ theorem greyDilation_shift_order (content big₁ big₂ : Find.Image) (off₁ of
     simp only [Function.comp_apply, shiftPos]
     rw [subPos_addPos u off₁ (by rw [hin.length_eq, (fits_length h₁.fits).1])]
 
+/-- non-vacuity of the order theorems: C09's 3×3 content at `(2,3)` and `(3,1)` of an 8×9 canvas
+(the concrete results `[[3,4],[4,5]]` / `[[4,2],[5,3]]` are evaluated in `Props/C09.lean`) -/
+example : greyDilation (embed [8, 9] [3, 1] exContent) [2, 2] 50 (some [1, 1]) false =
+    (greyDilation (embed [8, 9] [2, 3] exContent) [2, 2] 50 (some [1, 1]) false).map
+      (List.map (shiftPos [2, 3] [3, 1])) :=
+  greyDilation_shift_order exContent _ _ [2, 3] [3, 1]
+    (embed_isEmbed [8, 9] [2, 3] exContent rfl ⟨by omega, by omega, trivial⟩)
+    (embed_isEmbed [8, 9] [3, 1] exContent rfl ⟨by omega, by omega, trivial⟩)
+    (by simp [embed, allIdx_length]) (by simp [embed, allIdx_length]) [2, 2] 50 (by decide) [1, 1]
+    (by decide) (by decide)
+
 /-! ## locate without preprocessing under transposition (2-D) -/
 
 section transposeComp
@@ -630,6 +651,14 @@ example : (locateModel exPT [4, 5] exTI.data).map (List.map (fun m => (m.centre,
 example : (locateModel (transParams exPT) [5, 4] (revImg exTI).data).map
     (List.map (fun m => (m.centre, m.ecc)))
     = some [([2, 1], some (10, 0, 9)), ([2, 1], some (10, 0, 9))] := by decide +kernel
+
+/-- … and the theorem applies to that pair (its hypotheses are satisfiable, the model answering on
+both images by the two evaluations above) -/
+example (L LT : List Measure) (hL : locateModel exPT [4, 5] exTI.data = some L)
+    (hLT : locateModel (transParams exPT) [5, 4] (revImg exTI).data = some LT) :
+    ∃ L', L'.Perm LT ∧ List.Forall₂ (TransRow 1 1) L L' :=
+  locateNoPre_transpose exPT rfl 4 5 _ _
+    (isTransposeB_sound exTI (revImg exTI) 4 5 (by decide +kernel)) 2 2 1 1 1 1 rfl rfl rfl L LT hL hLT
 
 end transposeComp
 
